@@ -64,6 +64,9 @@ pub struct Family {
     /// flushed partitions, then - with no query in between, so that nothing is resident - restart,
     /// a batch without one of the columns, a compacting flush; content is read only afterwards
     pub blind: bool,
+    /// three rounds of (request for every table, flush): with a factor that does not merge, every
+    /// table ends with three partitions - the catalogue file of the last flush is the longest
+    pub flush_cycles: bool,
     /// small max_wal_files / max_wal_size_bytes so that background flushes fire
     pub tiny_wal: bool,
     pub max_ops: usize,
@@ -176,7 +179,7 @@ impl<'f> HistGen<'f> {
     }
 
     fn table_batch(&mut self, r: &mut Rng, t: &str) -> Sx {
-        let nrows = r.usize(1, 4);
+        let nrows = if self.fam.mixed_case { r.usize(3, 5) } else { r.usize(1, 4) };
         let cols: Vec<(String, u8)> = match self.fam.cols {
             Cols::Fixed => {
                 if !self.cur_cols.contains_key(t) {
@@ -263,7 +266,7 @@ pub fn gen_history(r: &mut Rng, fam: &Family) -> (String, Sx) {
     let bg = max_files < 1000 || max_size < (64 << 20);
     // every fourth history with a tiny log: the limit is exactly the size of the first segment
     let exact_limit = fam.tiny_wal && r.chance(1, 4);
-    let max_part = if fam.mixed_case { *r.pick(&[8u64, 12, 20, 30]) } else { *r.pick(&[8u64 << 20, 8 << 20, 1, 40]) };
+    let max_part = if fam.mixed_case { *r.pick(&[8u64, 12, 20, 40]) } else { *r.pick(&[8u64 << 20, 8 << 20, 1, 40]) };
     let io = if fam.odd_tables_compacting { 4 } else { *r.pick(&[1u64, 4]) };
     let ft = *r.pick(&[1u64, 4]);
     let opts = vec![
@@ -299,13 +302,34 @@ pub fn gen_history(r: &mut Rng, fam: &Family) -> (String, Sx) {
         let class = format!("{}/f{}/forced/restart", fam.name, factor);
         return (class, l(vec![l(opts), l(ops)]));
     }
+    if fam.flush_cycles {
+        let mut ops = vec![a("ops")];
+        for _ in 0..3 {
+            let ts = g.tables.clone();
+            ops.push(l(vec![a("ingest"), l(ts.iter().map(|t| g.table_batch(r, t)).collect())]));
+            ops.push(l(vec![a("flush")]));
+        }
+        let class = format!("{}/f{}/forced", fam.name, factor);
+        return (class, l(vec![l(opts), l(ops)]));
+    }
     let n_ops = r.usize(3, fam.max_ops);
     let mut ops = vec![a("ops")];
     let mut restarts = 0;
     let mut ingests = 0;
     for i in 0..n_ops {
         let k = r.below(100);
-        let op = if i == 0 && fam.odd_tables_compacting {
+        let op = if fam.mixed_case && i == 1 {
+            // the first request is flushed and then read back from the files
+            g.flushed();
+            l(vec![a("flush")])
+        } else if fam.mixed_case && i == 2 {
+            if r.chance(1, 2) {
+                restarts += 1;
+                l(vec![a("restart")])
+            } else {
+                l(vec![a("evict")])
+            }
+        } else if i == 0 && fam.odd_tables_compacting {
             // every table is created by the first request: _meta_tables then has one partition for
             // good and is never compacted (its name column compresses: F28), the others are
             ingests += 1;
